@@ -220,6 +220,10 @@ C12_Typed ==
            (chk.kind = "outcome" /\ ~ObsOk /\ chk.obsst \in KnownClasses) => chk.obsst \in MayFail(C))
   /\ Check("C12", "a result was returned although the script cannot be executed (ill-typed / unknown name / bad variable / negative amount)",
            (chk.kind = "outcome" /\ ObsOk) => MustFail(C) = {})
+  \* the reference semantics fixes which parts of a statement are evaluated (every source expression, every cap that is
+  \* reached, a destination only when something reaches it): a statement it rejects must not produce a result
+  /\ Check("C12", "a statement was executed although the reference semantics rejects it (wrong type / wrong asset / unknown name / unbounded source in a send-all)",
+           (IsSend /\ ObsOk /\ ~chk.huge) => chk.sp.err \in {"", E_MissingFunds})
 
 \* ---- behaviour generation for the relational checks C08 / C09: the state after every statement
 \* (visible balances following the observed postings and the save formula) is printed, one line per split point
